@@ -542,6 +542,7 @@ func (engine *Engine) Serve(c context.Context, conn network.Conn) (err error) {
 		if err1 != nil {
 			// The client closes the connection when handshake. So just ignore it.
 			if err1 == io.EOF {
+				conn.Close()
 				return nil
 			}
 			if re, ok := err1.(tls.RecordHeaderError); ok && re.Conn != nil && utils.TLSRecordHeaderLooksLikeHTTP(re.RecordHeader) {
